@@ -312,6 +312,9 @@ func (r *rng) genMessage(cfg mesgGenCfg, ts *tsGen) proto.Message {
 			if f.Value.Type() == proto.TypeSliceString && hasEmpty(f.Value.SliceString()) {
 				continue
 			}
+			if sliceLen(f.Value) == 0 { // an empty slice has size 0: the decoder skips zero-size fields (lossy shape, outside wf_input)
+				continue
+			}
 		}
 		mesg.Fields = append(mesg.Fields, f)
 	}
